@@ -208,6 +208,14 @@ func (r *Run) tryReplay(o *Obligation, rf *ReplayFile) {
 	}
 }
 
+// replayTimeout: the go test time limit of a replay or stand-in; the thorough tier's stand-ins enumerate more.
+func replayTimeout() string {
+	if os.Getenv("GOVC_TIER") == "thorough" {
+		return "1500s"
+	}
+	return "300s"
+}
+
 // runReplayTest injects src as an in-package test by overlay (nothing is written to the repo) and runs it.
 func runReplayTest(repo, pkgDir, src string) (string, bool) {
 	scratch, err := os.MkdirTemp("", "govc-replay-")
@@ -230,7 +238,7 @@ func runReplayTest(repo, pkgDir, src string) (string, bool) {
 	ob, _ := json.Marshal(ov)
 	ovPath := filepath.Join(scratch, "overlay.json")
 	os.WriteFile(ovPath, ob, 0o644)
-	cmd := exec.Command("bash", "-c", fmt.Sprintf("ulimit -v 8000000; cd %q && go test -overlay %q -vet=off -count=1 -v -timeout 120s -run 'TestGovcReplay' ./%s/ 2>&1", repo, ovPath, pkgDir))
+	cmd := exec.Command("bash", "-c", fmt.Sprintf("ulimit -v 8000000; cd %q && go test -overlay %q -vet=off -count=1 -v -timeout %s -run 'TestGovcReplay' ./%s/ 2>&1", repo, ovPath, replayTimeout(), pkgDir))
 	cmd.Env = goEnv()
 	b, _ := cmd.CombinedOutput()
 	out := string(b)
@@ -320,6 +328,7 @@ func (r *Run) tryTableReplay(o *Obligation, rf *ReplayFile) {
 // injected by overlay) that enumerates a stated finite set of inputs of a function the contracts cannot reach. Its
 // last "BOUNDED" line reports how many cases it ran. The result is kept apart from the obligations discharged.
 func (r *Run) boundedGoTest(name, what, bound string) {
+	os.Setenv("GOVC_TIER", r.Tier) // the stand-ins read their tier from the environment
 	tb, err := os.ReadFile(filepath.Join(r.Out, "replay_templates", "bounded."+name+".tmpl"))
 	o := &Obligation{Name: "bounded/" + name, Class: "bounded", Func: "bounded", Text: what + " [bound: " + bound + "]", Backend: "go test"}
 	if err != nil {
@@ -343,8 +352,10 @@ func (r *Run) boundedGoTest(name, what, bound string) {
 			cases = strings.TrimSpace(line[i+8:])
 		}
 	}
+	timedOut := strings.Contains(out, "test timed out")
+	crashed := !timedOut && (strings.Contains(out, "\npanic: ") || strings.Contains(out, "fatal error: "))
 	switch {
-	case failed:
+	case failed || crashed:
 		o.Answer = "sat"
 	case cases == "" || !strings.Contains(out, "ok "):
 		o.Answer = "error" // the stand-in did not run to completion: nothing can be said
